@@ -31,9 +31,9 @@ PKG = "yv-g02"
 TIERS = {
     # cfg files explored exhaustively, simulation (cfg, traces, depth), harness exploration parameters
     "quick": {"mc": ["MC_JobCtl_quick.cfg", "MC_JobCtl_quick3.cfg"], "sim": ("MC_JobCtl_sim.cfg", 100, 12),
-              "dfs_depth": 6, "max_dfs": 12, "random": 2, "shards": 8},
+              "dfs_depth": 6, "max_dfs": 8, "random": 2, "shards": 8},
     "thorough": {"mc": ["MC_JobCtl_thorough.cfg", "MC_JobCtl_thorough3.cfg"], "sim": ("MC_JobCtl_simlong.cfg", 600, 16),
-                 "dfs_depth": 8, "max_dfs": 40, "random": 6, "shards": 8},
+                 "dfs_depth": 8, "max_dfs": 24, "random": 4, "shards": 8},
 }
 
 
@@ -59,38 +59,43 @@ def _explore(gen, trace, t):
 def _validate(trace, shards, timeout=2400):
     """Validates an ndjson file of records with Trace_JobCtl in parallel JVMs.
     Returns (number of records, list of (record, verdict))."""
-    with open(trace) as f:
-        lines = f.readlines()
-    n = len(lines)
+    n = vlib.count_lines(trace)
     if n == 0:
         return 0, []
-    k = max(1, min(shards, (n + 1999) // 2000))
+    # at most 20000 records per JVM (the whole piece is deserialized at once)
+    k = max(1, min(shards, (n + 1999) // 2000), (n + 19999) // 20000)
     size = (n + k - 1) // k
     pieces = []
-    for i in range(k):
-        a, b = i * size, min(n, (i + 1) * size)
-        if a >= b:
-            break
-        p = f"{trace}.shard{i}"
-        with open(p, "w") as f:
-            f.writelines(lines[a:b])
-        pieces.append((a, b, p))
+    with open(trace) as f:
+        for i in range(k):
+            a, b = i * size, min(n, (i + 1) * size)
+            if a >= b:
+                break
+            p = f"{trace}.shard{i}"
+            with open(p, "w") as g:
+                for _ in range(b - a):
+                    g.write(f.readline())
+            pieces.append((a, b, p))
 
     def one(piece):
         a, b, p = piece
         r = vlib.tlc("Trace_JobCtl", "Trace_JobCtl.cfg", workers=1, timeout=timeout, env={"TRACE": os.path.abspath(p)},
-                     depth_first=True, xmx="2g")
+                     depth_first=True, xmx="3g")
         if not r.ok or r.distinct != (b - a) + 1:
             raise vlib.ToolError(f"Trace_JobCtl failed on {p}: ok={r.ok} states={r.distinct} expected={b - a + 1} "
                                  f"{(r.error or r.violation or '')[:1500]}")
-        return [(a + j["line"] - 1, j) for j in r.json]
+        want = {j["line"]: j for j in r.json}
+        out = []
+        if want:
+            with open(p) as f:
+                for ln, line in enumerate(f, 1):
+                    if ln in want:
+                        out.append((json.loads(line), want[ln]))
+        return out
 
-    with ThreadPoolExecutor(max_workers=len(pieces)) as ex:
+    with ThreadPoolExecutor(max_workers=min(shards, len(pieces))) as ex:
         res = list(ex.map(one, pieces))
-    bad = []
-    for part in res:
-        for idx, verdict in part:
-            bad.append((json.loads(lines[idx]), verdict))
+    bad = [x for part in res for x in part]
     for _, _, p in pieces:
         try:
             os.remove(p)
